@@ -103,12 +103,15 @@ def make(spec, form, distinct, limit):
 
 
 def statements(K, tier):
+    """tier: 'quick' | 'thorough' (full set) | 'large' (reduced set used on the 4-row tables of the thorough tier)."""
     out = []
     for spec in key_lists(K):
         combos = LIMITS_FULL if len(spec) <= 2 else LIMITS_SMALL
         forms = ('pos', 'name', 'expr', 'hidden', 'mixed')
-        if len(spec) >= 3 and tier == 'quick':
+        if len(spec) >= 3 and tier in ('quick', 'large'):
             forms = ('pos', 'hidden', 'mixed')
+        if tier == 'large':
+            combos = LIMITS_FULL if len(spec) == 1 else (LIMITS_SMALL if len(spec) == 2 else [(None, None)])
         for form in forms:
             if form == 'mixed' and len(spec) < 2:
                 continue
@@ -178,11 +181,13 @@ def run_one(conn, rows, tag, stmt, acc, extra):
     acc.add('outcomes', repr(exp)[:60])
 
 
-def sweep1(shard, nshards, L, K, tier, seed):
+def sweep1(shard, nshards, L, K, tier, seed, only_len=None):
     acc = Acc()
     stmts = statements(K, tier) + agg_statements()
     for idx, rows in enumerate(tables(L, seed)):
         if not mine(idx, shard, nshards):
+            continue
+        if only_len is not None and len(rows) != only_len:
             continue
         table = HTable(COLS, rows)
         conn = connect(t=table, postings=table)
@@ -293,7 +298,7 @@ def replay(c):
         rows = [tuple(r) for r in unjson(c['rows'])]
         table = HTable(COLS, rows)
         conn = connect(t=table, postings=table)
-        for tag, stmt in statements(c['K'], c['tier']) + agg_statements():
+        for tag, stmt in statements(c['K'], 'thorough') + agg_statements():
             if tag == c['tag']:
                 run_one(conn, rows, tag, stmt, acc, {'kind': 'stmt', 'K': c['K'], 'tier': c['tier']})
                 break
@@ -302,8 +307,10 @@ def replay(c):
 
 def run(ctx):
     L, K = ctx.pick((3, 3), (4, 3))
-    acc = run_shards(sweep1, ctx.jobs, L, K, ctx.tier, ctx.seed)
+    acc = run_shards(sweep1, ctx.jobs, 3, K, ctx.tier, ctx.seed)
     if ctx.thorough:
+        # all 6561 tables of exactly 4 rows with a reduced DISTINCT/LIMIT menu (the full menu ran on <= 3 rows)
+        acc.merge(run_shards(sweep1, ctx.jobs, 4, K, 'large', ctx.seed, 4))
         # all 2^4 direction vectors of 4-key lists on tables of <= 3 rows
         acc.merge(run_shards(sweep1_k4, ctx.jobs, 3, ctx.seed))
     acc2 = run_shards(sweep2, ctx.jobs)
